@@ -925,6 +925,35 @@ def rule_extent_coincidence(rep, res, entry=None, rule="R-DISPATCH"):
                          f"(e.g. as many samples as channels) the other interpretation of the argument is taken")
 
 
+def rule_min_vs_max_exact(rep, res, entry=None, rule="R-VALUE"):
+    """whether a quantity "varies at all" is not decided by an exact order test between its computed minimum and maximum
+    (`Xmaxs[k] > Xmins[k]`): both come out of floating-point solves of different sub-systems and differ by rounding for a quantity the
+    data pins.  Decided on the syntax of every reached function: a comparison whose two sides are the same constant subscript of two
+    different parameters of the function."""
+    entry = entry or res.entry
+    fns = {ev.d["callee"] for ev in res.events("call")} | {res.fn}
+    n = 0
+    for fn in sorted(fns, key=lambda f: f.qual):
+        params = {a.arg for a in fn.node.args.args}
+        for c in ast.walk(fn.node):
+            if not (isinstance(c, ast.Compare) and len(c.ops) == 1 and isinstance(c.ops[0], (ast.Gt, ast.GtE, ast.Lt, ast.LtE, ast.NotEq, ast.Eq))):
+                continue
+            l, r = c.left, c.comparators[0]
+            if not (isinstance(l, ast.Subscript) and isinstance(r, ast.Subscript) and isinstance(l.value, ast.Name) and isinstance(r.value, ast.Name)
+                    and l.value.id in params and r.value.id in params and l.value.id != r.value.id and norm_text(l.slice) == norm_text(r.slice)):
+                continue
+            names = (l.value.id.lower(), r.value.id.lower())
+            if not (any("max" in x for x in names) and any("min" in x for x in names)):
+                continue
+            n += 1
+            rep.violated(rule, "a pinned quantity is not detected by an exact min-vs-max test", where=fn.loc(c), construct=norm_text(c), entry=entry,
+                         config=res.config,
+                         msg=f"`{norm_text(c)}` compares a computed maximum with a computed minimum exactly: for a source the target pins the two "
+                             f"differ by rounding (1e-16), the test is true, the source is walked although it does not vary, and the remaining "
+                             f"sub-system is singular (LinAlgError, or spaced solutions far outside the bounds)")
+    return n
+
+
 def rule_last_iteration_wins(rep, res, entry=None, rule="R-COVER"):
     """a verdict over ALL items of a loop is accumulated (`ok = ok and …`, `ok &= …`, an early exit when it fails): a flag that is simply
     re-assigned in every iteration (`ok = test(item)`) and read after the loop reports the LAST item only.  Decided on the syntax of every
